@@ -414,7 +414,7 @@ def run(tier):
         "containers, keys alternate with values, one root value; only prefixes completable within the bound) is walked depth first over four "
         "alphabets and every complete sequence is re-executed from a fresh encoder: 'struct' (begin_array indefinite/0/1/2/3, begin_object "
         "indefinite/0/1/2, begin_multi_dim, keys 'a' and '', null, 1, 'abc', NaN) up to %d events; 'mid' (29 scalars, one per kind/tag family, "
-        "begin_array indefinite/2/3, begin_object indefinite/1/2, begin_multi_dim, 2 keys) up to %d events; 'zoo' (214 scalars: integers at every "
+        "begin_array indefinite/2/3, begin_object indefinite/1/2, begin_multi_dim, 3 keys incl. one that needs escaping) up to %d events; 'zoo' (229 scalars: integers at every "
         "width boundary, time-tagged integers/doubles/strings, doubles incl. NaN payloads, +-inf, -0.0, subnormal, halves, strings of lengths "
         "0..32 and every UTF-8 width and escape class, the string '1' under each of the 21 semantic tags, bigint/bigdec/bigfloat texts, byte "
         "strings of the base64 padding classes and fixext sizes with each tag and 9 ext tags, typed arrays of all 11 element types; 6 keys incl. "
